@@ -154,6 +154,11 @@ def scenarios(tier, seed):
                         out.append(({'cfg': {'seed': sd}, 'ops': [dict(a), dict(b), dict(c)]}, 0))
         for a in singles[:2] + singles[-2:]:
             out.append(({'cfg': {'seed': sd, 'client': 'query'}, 'ops': [dict(a)]}, 0))
+        # transactions that follow one another without an idle gap
+        for a in singles[:10]:
+            for b in (rd(0x1000, 4), wr(0x1000, 9)):
+                for gap in (0.0, 0.001):
+                    out.append(({'cfg': {'seed': sd}, 'ops': [dict(a, gap=gap), dict(b)]}, 0))
         # different objects one after the other
         out.append(({'cfg': {'seed': sd}, 'ops': [rd(0x1000, 4), rd(0x2000, 4), wr(0x3000, 9), rd(0x1000, 9)]}, 0))
     # (3) delivery latencies in (0, 5 ms]: every uniform latency and every single per-frame deviation
@@ -176,6 +181,10 @@ def scenarios(tier, seed):
                                 # call returns after the cost (a driver that waits for the transmit confirmation)
                                 out.append(({'cfg': {'seed': sd, 'base_lat': base, 'send_cost': cost, 'rx_threads': rxt, 'send_visible': vis},
                                              'ops': [dict(first), dict(second)]}, 0))
+                                if rxt:
+                                    # the second transaction follows at once (no idle gap)
+                                    out.append(({'cfg': {'seed': sd, 'base_lat': base, 'send_cost': cost, 'rx_threads': rxt, 'send_visible': vis},
+                                                 'ops': [dict(first, gap=0.0), dict(second)]}, 0))
     return out
 
 
@@ -186,7 +195,7 @@ RULE = ("transaction histories between a real client MemoryAccess (or Dm14Query)
         "transactions on every uniform latency {0.2,1,5 ms} with every single (thorough: pair of) per-frame latency / wake deviation; "
         "distinct by (history, choices)")
 ASSUME = ["the serving application supplies count x size bytes for a read (it knows the object size from the scenario)",
-          "a transaction is followed by a 1.5 s idle gap before the states are judged", "memory contents are a function of the address and VERIF_SEED"]
+          "the last transaction of a history is followed by a 1.5 s idle gap before the states are judged (between transactions: 1.5 s, or none in the back-to-back families)", "memory contents are a function of the address and VERIF_SEED"]
 
 
 def run(tier, seed):
